@@ -736,6 +736,22 @@ def c17(ctx: Ctx) -> None:
         ctx.check('C17-R5', f'return {norm(rn.ast.value)} only after {lp}.is_running() was observed true', g3.loc(rn), w is None and bool(rb) and bool(sub),
                   'the caller gets the stopper only once the loop runs', 'loop_in_thread can return before the loop is running',
                   witness=render(g3, w), construct=construct_key('loop_in_thread', 'returns early'))
+    # R7: the worker runs the loop once: when run_forever() has returned (the stopper asked for it) nothing runs the loop again -
+    # what was pending on it stays frozen, which is what callers that saw `not loop.is_running()` rely on
+    ctx.rule('C17-R7', 'once the background run of the loop has returned, loop_in_thread does not run that loop again', 1)
+    n_r7 = 0
+    for wk in [c for c in lit.children if c.kind == 'function']:
+        gw_ = build(wk, p, inline_module_helpers=True)
+        runs_ = [n for n in gw_.nodes if n.kind == 'call' and isinstance(n.ast.func, ast.Attribute) and n.ast.func.attr in ('run_forever', 'run_until_complete')]
+        for rn_ in runs_:
+            n_r7 += 1
+            again = find_path(gw_, [], runs_, start_edges=list(gw_.succ[rn_.id]))
+            ctx.check('C17-R7', f'{wk.qualname}: after {norm(rn_.ast)[:50]} no further run of the loop', gw_.loc(rn_), again is None,
+                      'one run per activation', 'the loop is run again after the run that the stopper ended (a "finalisation" run, say): tasks left '
+                      'pending on the stopped loop resume although other threads have already seen the loop as not running',
+                      witness=render(gw_, again), construct=construct_key(wk.qualname, 'loop run again'))
+    if not n_r7:
+        ctx.holds('C17-R7', 'no nested worker of loop_in_thread runs the loop (expanded elsewhere)', f'{A}:{lit.lineno}')
     # R6
     stopper = next((c for c in lit.children if c.kind == 'function' and any(
         isinstance(x, ast.Attribute) and x.attr == 'stop' for x in ast.walk(c.node))), None)
